@@ -10,6 +10,7 @@ corrupted histories as negative controls.
 import concurrent.futures
 import copy
 import multiprocessing
+import os
 import random
 
 from engine import tlc, core, tracecheck
@@ -63,6 +64,8 @@ def mc_jobs(quick):
            "MC_one_strict.cfg")]
   if not quick:
     jobs += [("Forest: one cable, port events on the cable port and a host port (eager channel)", "MC_onep.cfg"),
+             ("Forest: one cable, port events, StrictHeal (a port coming up revives what discovery vouches for): "
+              "HealsOnPortUp", "MC_onep1_heal.cfg"),
              ("Forest: triangle, stable (eager channel)", "MC_tri.cfg"),
              ("Forest: triangle, randomized / nx: every spanning forest (eager channel)", "MC_tri_rand.cfg"),
              ("Forest: two parallel cables, unstable (eager channel)", "MC_pair_unstable.cfg"),
@@ -366,13 +369,18 @@ def run(ctx):
       "a port deleted from a connected switch is not re-added before the component wrote a batch without it",
       "OpenFlow bytes are decoded by harness/rawbytes.py (struct only)",
       "nx mode is not run (networkx is not installed); randomized mode is validated against 'any spanning forest'"]
-  started = model_check_start(quick)
+  # X10_SKIP_MC=1 (self-test aid for mutation screening on a loaded machine): skip the model checking of the
+  # specification, which does not depend on the code under test; everything that touches the code still runs
+  skip_mc = os.environ.get("X10_SKIP_MC") == "1"
+  started = None if skip_mc else model_check_start(quick)
   s = ctx.seed
   # ---- TLC exports (all JVMs at once, before this process forks its workers)
-  edges = [("EX_lone.cfg", params("lone", P=2, W=3, seed=s), "edges_lone", 4 if quick else 1),
-           ("EX_onee.cfg", params("one", seed=s + 5), "edges_one_eager", 6 if quick else 1)]
-  if not quick:
-    edges += [("EX_one.cfg", params("one", seed=s + 2), "edges_one_async", 1),
+  edges = [("EX_lone.cfg", params("lone", P=2, W=3, seed=s), "edges_lone", 4 if quick else 1)]
+  if quick:
+    edges += [("EX_oneq.cfg", params("one", seed=s + 5), "edges_one_eager_noreboot", 2)]
+  else:
+    edges += [("EX_onee.cfg", params("one", seed=s + 5), "edges_one_eager", 1),
+              ("EX_one.cfg", params("one", seed=s + 2), "edges_one_async", 1),
               ("EX_pair.cfg", params("pair", seed=s + 3), "edges_pair", 1)]
   sims = [("EX_sim_pair.cfg", params("pair", "stable", 1, 1, s + 1), "sim_pair", 60 if quick else 1500, 50),
           ("EX_sim_tri.cfg", params("tri", "unstable", 2, 3, s + 2), "sim_tri_unstable", 60 if quick else 1500, 60)]
@@ -397,7 +405,12 @@ def run(ctx):
     lap(label)
   # ---- spec -> code: random deep behaviours
   for (cfg, par, label, num, depth), r in zip(sims, res[len(edges):]):
-    behs = [norm(b) for b in r.tagged("H")]
+    behs, seen = [], set()
+    for b in r.tagged("H"):            # TLC prints every successor at the last level: keep one per prefix
+      k = core.fp([[st["a"], st["args"]] for st in b[:-1]])
+      if k not in seen:
+        seen.add(k)
+        behs.append(norm(b))
     if len(behs) < num // 2:
       raise tlc.TLCError("simulation %s exported %d behaviours" % (cfg, len(behs)))
     allb += behs
@@ -420,7 +433,10 @@ def run(ctx):
   for g, (items, traces), (r, rej, nc) in zip(groups, per, outs):
     ctx.notes["trace_%s_%s" % (g["kind"], g["cfg"][6:-4])] = account(ctx, g, traces, items, r, rej, nc)
   lap("validate")
-  model_check_finish(ctx, started)
+  if skip_mc:
+    ctx.notes["model_checking"] = "SKIPPED (X10_SKIP_MC=1)"
+  else:
+    model_check_finish(ctx, started)
   lap("model_checking_done")
   ctx.exhaustive = True
 
